@@ -17,6 +17,18 @@ Definition znum (s : bytes) : Z :=
               else Z.of_N (match undec s with Some n => n | None => 0%N end)
   | [] => 0%Z
   end.
+(* a recorded index / line / column, cut off at n + 1 while still a binary number (C06_checked_predicates_saturate:
+   with n = length src no verdict changes); negative or malformed numbers are n + 1 as well - never faithful *)
+Definition numc_ (n : nat) (nn : N) (s : bytes) : nat :=    (* nn = N.of_nat n, converted once per request *)
+  match s with
+  | [] => S n
+  | b :: _ =>
+      if Byte.eqb b x2d then S n
+      else match undec s with
+           | Some v => if (nn <? v)%N then S n else N.to_nat v
+           | None => S n
+           end
+  end.
 Definition ndec (n : nat) : bytes := dec (N.of_nat n).
 Definition zdec (z : Z) : bytes := if (z <? 0)%Z then x2d :: dec (Z.to_N (Z.opp z)) else dec (Z.to_N z).
 Definition pos3 (p : position) : list bytes := [ndec (p_index p); ndec (p_line p); ndec (p_col p)].
@@ -25,18 +37,19 @@ Definition expr_out (e : expression) : list bytes := e_value e :: pos3 (e_from e
 
 (* items of 8 arguments: kind, text, from(index line col), to(index line col);
    evaluated with the one-pass position table (= the specification predicates, C06_checked_predicates_decide_spec) *)
-Fixpoint check_items (fuel : nat) (tbl : list position) (n : nat) (src : bytes) (a : list bytes) : list bytes :=
+Fixpoint check_items (fuel : nat) (tbl : list position) (n : nat) (nn : N) (src : bytes) (a : list bytes) : list bytes :=
+  let numc := numc_ n nn in
   match fuel with
   | O => []
   | S f =>
     match a with
     | kind :: text :: fi :: fl :: fc :: ti :: tl :: tc :: r =>
-        let from := mkpos (num fi) (num fl) (num fc) in
-        let to := mkpos (num ti) (num tl) (num tc) in
+        let from := mkpos (numc fi) (numc fl) (numc fc) in   (* = sat_pos n of the recorded position *)
+        let to := mkpos (numc ti) (numc tl) (numc tc) in
         let ok := if is kind "E" then range_okb_tbl tbl n src (mkexpr text from to)
                   else if is kind "N" then name_range_okb_tbl tbl n src text from to
                   else plain_range_okb_tbl tbl n from to in
-        b2 ok :: check_items f tbl n src r
+        b2 ok :: check_items f tbl n nn src r
     | _ => []
     end
   end.
@@ -77,7 +90,7 @@ Definition dispatch (f : bytes) (a : list bytes) : list bytes :=
     pos3 (position_at (new_input s) i) ++ pos3 (pos_of s i)
   else if is f "ops" then run_ops (new_input (arg 0 a)) (tl a)
   else if is f "check" then
-    let src := arg 0 a in check_items (length a) (pos_table src) (length src) src (tl a)
+    let src := arg 0 a in check_items (length a) (pos_table src) (length src) (N.of_nat (length src)) src (tl a)
   else if is f "check_slow" then                         (* the specification predicates as written *)
     let src := arg 0 a in
     match tl a with
